@@ -163,6 +163,13 @@ def other_parsers(res, text, want):
         pc.parse_cache = {}
         _two[0] = (api.new_parser(), api.new_parser(), pc)       # constructed, not cloned: whatever constructors share is shared
     pa, pb, pc = _two[0]
+    if len(want) >= 2:        # the step-by-step probes need a listing with something between two steps
+        if not _interleaved(res, text, want, pa, pb):
+            return
+    _after_cached_parse(res, text, want, pc)
+
+
+def _interleaved(res, text, want, pa, pb):
     try:
         it = iter(pa.list_names(text))
         got = []
@@ -177,7 +184,32 @@ def other_parsers(res, text, want):
     if got != want or inter != ['zz', 'qq']:
         res.violation('listing:two-parsers', 'a listing consumed step by step is disturbed by a listing made on another SqParser object',
                       {'text': text, 'expected': repr(want), 'observed': repr(got) + ' / other parser: ' + repr(inter)})
-        return
+        return False
+    # (c) same parser: an older scan, consumed in part, is closed between two steps of the newer one
+    R = e1.get_real()
+    try:
+        old = iter(R.parser.list_names('x1 + x2 + x3'))
+        next(old, None)
+        it = iter(R.parser.list_names(text))
+        got = []
+        first = next(it, None)
+        if first is not None:
+            got.append(first)
+        if hasattr(old, 'close'):
+            old.close()
+        del old
+        got.extend(it)
+    except Exception as e:  # noqa
+        got = ['<%s>' % type(e).__name__]
+    res.count('listings')
+    if got != want:
+        res.violation('listing:older-scan-closed', 'closing an older, partly consumed listing disturbs the listing in progress on the same parser',
+                      {'text': text, 'expected': repr(want), 'observed': repr(got)})
+        return False
+    return True
+
+
+def _after_cached_parse(res, text, want, pc):
     if len(pc.parse_cache) > 2000:
         pc.parse_cache.clear()
     try:
